@@ -78,6 +78,18 @@ def build_bam(rng, sim, tmp, opts):
             a.set_tag("PC", rng.randint(1, 200))
         elif r < 0.12:
             a.set_tag("PS", 999)
+        if rng.random() < 0.5:
+            # auxiliary fields of every BAM type (minimap2 writes tp:A / ts:A; H, B and f occur as well): the output must keep value
+            # and type, which only a comparison of the SAM text sees
+            a.set_tag("tp", rng.choice("PSI"), value_type="A")
+            if rng.random() < 0.5:
+                a.set_tag("XH", rng.choice(["1AE3", "00FF"]), value_type="H")
+            if rng.random() < 0.5:
+                a.set_tag("XF", rng.choice([0.5, 1.25]), value_type="f")
+            if rng.random() < 0.3:
+                import array as _array
+
+                a.set_tag("XB", _array.array("h", [1, -2, 300]))
         if rng.random() < 0.05:
             a.flag |= 1024  # duplicate
         if rng.random() < 0.05:
@@ -345,7 +357,8 @@ def run_one(rng, counters):
             regs = list(opts["regions"])
             if rng.random() < 0.5:
                 c, s_, e_ = rng.choice(regs)
-                regs.append((c, max(0, s_ - rng.randint(0, 200)), (e_ + rng.randint(-100, 300)) if e_ is not None else None))
+                s2 = max(0, s_ - rng.randint(0, 200))
+                regs.append((c, s2, max(s2 + 1, e_ + rng.randint(-100, 300)) if e_ is not None else None))  # never an empty/inverted region
             rng.shuffle(regs)
             opts["regions"] = regs
             opts["regions_hostile"] = True
